@@ -33,6 +33,38 @@ example : durationCast ⟨i32, ⟨1, 1000⟩⟩ ⟨i64, ⟨1001, 30000⟩⟩ (-7
 
 /-! ## the common type and the operators that go through it -/
 
+/-- The period of the common type is `gcd(p.num, q.num) / lcm(p.den, q.den)` (its `ratio` normalisation keeps the value),
+    and `commonTy` computes it without a compile-time overflow. -/
+theorem commonPeriod_eq (a b : DurTy) (hpa : PerOk a.per) (hpb : PerOk b.per)
+    (hl : ((Int.lcm a.per.den b.per.den : Nat) : Int) ≤ imax.max) :
+    commonTy a b = .ok (cdTy a b) ∧
+      (cdTy a b).per.toRat = ((Int.gcd a.per.num b.per.num : Nat) : ℚ) / ((Int.lcm a.per.den b.per.den : Nat) : ℚ) := by
+  refine ⟨commonTy_eq a b hpa hpb hl, ?_⟩
+  have hG := gcd_pos_int a.per.num b.per.num hpa.1
+  have hL := lcm_pos_int a.per.den b.per.den hpa.2.1 hpb.2.1
+  show (cdPer a.per b.per).toRat = _
+  unfold cdPer Ratio.toRat
+  dsimp only
+  have eG : (((Int.gcd a.per.num b.per.num : Nat) : Int) : ℚ) = ((Int.gcd a.per.num b.per.num : Nat) : ℚ) := by push_cast; rfl
+  have eL : (((Int.lcm a.per.den b.per.den : Nat) : Int) : ℚ) = ((Int.lcm a.per.den b.per.den : Nat) : ℚ) := by push_cast; rfl
+  rw [← eG, ← eL]
+  generalize ((Int.gcd a.per.num b.per.num : Nat) : Int) = G at *
+  generalize ((Int.lcm a.per.den b.per.den : Nat) : Int) = L at *
+  have hh := gcd_pos_int G L hG
+  have dhG : ((Int.gcd G L : Nat) : Int) ∣ G := Int.gcd_dvd_left _ _
+  have dhL : ((Int.gcd G L : Nat) : Int) ∣ L := Int.gcd_dvd_right _ _
+  generalize ((Int.gcd G L : Nat) : Int) = h at *
+  obtain ⟨g, rfl⟩ := dhG
+  obtain ⟨l, rfl⟩ := dhL
+  rw [Int.mul_ediv_cancel_left _ (by omega), Int.mul_ediv_cancel_left _ (by omega)]
+  have hq : (h : ℚ) ≠ 0 := by exact_mod_cast (by omega : h ≠ 0)
+  have hlq : (l : ℚ) ≠ 0 := by
+    intro hz
+    have : l = 0 := by exact_mod_cast hz
+    subst this; omega
+  push_cast
+  field_simp
+
 /-- Conversion to the common type is exact: the converting constructor takes part in overload resolution (its conversion
     factor has denominator 1: never the `.pre` error), does not overflow, and the converted count denotes the same number
     of seconds. -/
@@ -367,6 +399,91 @@ theorem mulAssign_eq (t : DurTy) (hr : RepOk t.rep) (c d : Int) (h : t.rep.inR (
   rw [repOk_promote hr, arith_ok _ (repOk_w hr) _ h]
   simp only [bind, Except.bind, conv_of_inR _ (repOk_w hr) _ h]
 
+/-! ## duration / duration, duration % duration -/
+
+/-- `duration / duration`: the truncated quotient of the two exact values; the divisor is non-zero and the quotient
+    `min / -1` (not representable) is excluded. -/
+theorem div_eq (a b : DurTy) (h : PairTyOk a b) (x y : Int) (hin : PairIn a b x y) (hy0 : y ≠ 0)
+    (hex : ¬ (x * mulL a.per b.per = (cdTy a b).rep.min ∧ y * mulR a.per b.per = -1)) :
+    div a b x y = .ok (Spec.div a.per.toRat b.per.toRat x y) := by
+  obtain ⟨c1, c2⟩ := both_common a b h x y hin
+  have hcd := cd_repOk h
+  obtain ⟨ha, hb, hpa, hpb, hc⟩ := h
+  obtain ⟨e1, e2, hpos, m1, m2, _⟩ := mul_rat a.per b.per hpa hpb hc.1
+  have hr0 : y * mulR a.per b.per ≠ 0 := Int.mul_ne_zero hy0 (by omega)
+  unfold div
+  rw [pairCtx_eq a b ha hb hpa hpb hc]
+  simp only [bind, Except.bind, divCore, c1, c2]
+  have ecd : (pairK a b).cd = cdTy a b := rfl
+  rw [ecd, repOk_promote hcd, cdiv_ok _ _ _ hr0 hex]
+  have hq := tdiv_inR _ (repOk_w hcd) _ _ hin.2.2.1 hin.2.2.2 hr0 (fun hh => hex ⟨hh.2.1, hh.2.2⟩)
+  simp only [conv_of_inR _ (repOk_w hcd) _ hq]
+  congr 1
+  rw [tdiv_trunc' _ _ hr0]
+  unfold Spec.div Spec.val
+  congr 1
+  rw [← e1, ← e2]
+  push_cast
+  have hne : (cdPer a.per b.per).toRat ≠ 0 := ne_of_gt hpos
+  have hrq : ((y : ℚ) * (mulR a.per b.per : ℚ)) ≠ 0 := by exact_mod_cast hr0
+  field_simp
+
+/-- `duration % duration`: no trap, and the remainder denotes exactly `d1 - (d1 / d2) · d2`. -/
+theorem mod_exact (a b : DurTy) (h : PairTyOk a b) (x y : Int) (hin : PairIn a b x y) (hy0 : y ≠ 0)
+    (hex : ¬ (x * mulL a.per b.per = (cdTy a b).rep.min ∧ y * mulR a.per b.per = -1)) :
+    ∃ r, mod a b x y = .ok r ∧
+      (r : ℚ) * (cdTy a b).per.toRat =
+        Spec.val a.per.toRat x - (Spec.div a.per.toRat b.per.toRat x y : ℚ) * Spec.val b.per.toRat y := by
+  have hdiv := div_eq a b h x y hin hy0 hex
+  obtain ⟨c1, c2⟩ := both_common a b h x y hin
+  have hcd := cd_repOk h
+  obtain ⟨ha, hb, hpa, hpb, hc⟩ := h
+  obtain ⟨e1, e2, hpos, m1, m2, _⟩ := mul_rat a.per b.per hpa hpb hc.1
+  have hr0 : y * mulR a.per b.per ≠ 0 := Int.mul_ne_zero hy0 (by omega)
+  have ecd : (pairK a b).cd = cdTy a b := rfl
+  -- the quotient the model computes is Spec.div
+  have hq : Int.tdiv (x * mulL a.per b.per) (y * mulR a.per b.per) = Spec.div a.per.toRat b.per.toRat x y := by
+    unfold div at hdiv
+    rw [pairCtx_eq a b ha hb hpa hpb hc] at hdiv
+    simp only [bind, Except.bind, divCore, c1, c2] at hdiv
+    rw [ecd, repOk_promote hcd, cdiv_ok _ _ _ hr0 hex] at hdiv
+    have hq' := tdiv_inR _ (repOk_w hcd) _ _ hin.2.2.1 hin.2.2.2 hr0 (fun hh => hex ⟨hh.2.1, hh.2.2⟩)
+    simp only [conv_of_inR _ (repOk_w hcd) _ hq'] at hdiv
+    exact Except.ok.inj hdiv
+  -- |l % r| ≤ |l| : representable
+  have hm : (cdTy a b).rep.inR (Int.tmod (x * mulL a.per b.per) (y * mulR a.per b.per)) = true := by
+    have hl := hin.2.2.1
+    rw [inR_iff] at hl ⊢
+    have hmm := min_max_zero (cdTy a b).rep
+    generalize x * mulL a.per b.per = l at *
+    generalize y * mulR a.per b.per = r at *
+    rcases Int.le_total 0 l with h0 | h0
+    · have := Int.tmod_nonneg r h0
+      have : Int.tmod l r ≤ l := tmod_le_self l r h0
+      omega
+    · have h1 : Int.tmod (-l) r = -(Int.tmod l r) := Int.neg_tmod ..
+      have := Int.tmod_nonneg r (by omega : 0 ≤ -l)
+      have : Int.tmod (-l) r ≤ -l := tmod_le_self (-l) r (by omega)
+      omega
+  refine ⟨Int.tmod (x * mulL a.per b.per) (y * mulR a.per b.per), ?_, ?_⟩
+  · unfold mod
+    rw [pairCtx_eq a b ha hb hpa hpb hc]
+    simp only [bind, Except.bind, modCore, c1, c2]
+    rw [ecd, repOk_promote hcd, cmod_ok _ _ _ hr0 hex]
+    simp only [mkCD_id _ hcd _ hm]
+  · rw [← hq]
+    have hdef : Int.tmod (x * mulL a.per b.per) (y * mulR a.per b.per)
+        = x * mulL a.per b.per - (y * mulR a.per b.per) * Int.tdiv (x * mulL a.per b.per) (y * mulR a.per b.per) := by
+      have := Int.tmod_add_mul_tdiv (x * mulL a.per b.per) (y * mulR a.per b.per)
+      omega
+    rw [hdef]
+    unfold Spec.val
+    have pe : (cdTy a b).per.toRat = (cdPer a.per b.per).toRat := rfl
+    rw [pe, ← e1, ← e2]
+    push_cast
+    ring
+
+
 /-! ## non-vacuity of the hypotheses (kernel-evaluated on samples: tests, not proofs of anything general) -/
 
 /-- milliseconds (int32) and ticks of 1001/30000 s (int64): every static precondition used above holds -/
@@ -400,5 +517,10 @@ example : absD ⟨i32, ⟨1001, 30000⟩⟩ (-2147483647) = .ok 2147483647 := by
   rw [abs_eq _ (by decide) (by decide) (by decide +kernel) (by decide) _ (by decide) (by decide)]
   rfl
 
+
+/-- `div_eq` / `mod_exact` on a sample with a negative dividend (test): -100 thirds of a second / 3 ticks of 5/7 s = trunc(-15.55…) = -15 -/
+example : div ⟨i64, ⟨1, 3⟩⟩ ⟨i64, ⟨5, 7⟩⟩ (-100) 3 = .ok (-15) := by
+  rw [div_eq _ _ (by decide +kernel) _ _ (by decide +kernel) (by decide) (by decide +kernel)]
+  decide +kernel
 
 end Tetl.C12.Props
